@@ -278,7 +278,9 @@ func c04Drive(tb rapid.TB, r *baseRig, c c04Case) ([]vEvent, bool) {
 			defer close(outDone)
 			for k := 0; k < c.Outbound; k++ {
 				octx, oc := context.WithTimeout(context.Background(), 20*time.Second)
-				_ = r.cli.Publish(octx, &Message{Topic: "out", QoS: QoS2, Payload: []byte("o")})
+				// the application's own QoS2 publishes use identifiers from the same small set as the inbound ones:
+				// the two directions have separate identifier spaces and must not disturb each other
+				_ = r.cli.Publish(octx, &Message{Topic: "out", QoS: QoS2, Payload: []byte("o"), ID: uint16(c04IDs[k%len(c04IDs)])})
 				oc()
 			}
 		}()
